@@ -17,7 +17,7 @@ out = {}
 for name, mod in sorted(m.modules.items()):
     t = private_members(mod.tree)
     for k, v in t.items():
-        if any(x for kk, x in v.items() if kk != "arity"):
+        if any(x for kk, x in v.items() if kk not in ("arity", "callers")):
             out[name + ("." + k if k else "")] = v
 with open(os.path.join(HERE, "spec", "names.json"), "w") as f:
     json.dump(out, f, indent=1, sort_keys=True)
